@@ -25,12 +25,16 @@ Proof.
 Qed.
 
 (* A growable vector as (len, cap): push reallocates exactly when len = cap.
-   [pushes n] = n pushes after a clear; it reallocates iff n exceeds the capacity. *)
+   [pushes n] = n pushes after a clear; it reallocates iff n exceeds the capacity.
+   Growth is std's RawVec::grow_amortized for elements of 2..=1024 bytes (the NodeIndex stack,
+   the Input list, FixedBitSet's u32 blocks): cap' = max(4, max(2 * cap, len + 1)).  The
+   theorems only use cap' >= len + 1; the exact rule matters for the capacity correspondence
+   of C07 (Alloc/CapsRun.v), which compares the predicted capacities with the real ones. *)
 Record vec := { vlen : nat; vcap : nat }.
 Definition vclear (v : vec) : vec := {| vlen := 0; vcap := vcap v |}.
 Definition vpush (v : vec) : vec * bool :=
   if vlen v <? vcap v then ({| vlen := S (vlen v); vcap := vcap v |}, false)
-  else ({| vlen := S (vlen v); vcap := Nat.max (2 * vcap v) (S (vlen v)) |}, true).
+  else ({| vlen := S (vlen v); vcap := Nat.max 4 (Nat.max (2 * vcap v) (S (vlen v))) |}, true).
 Definition vpop (v : vec) : vec := {| vlen := vlen v - 1; vcap := vcap v |}.
 
 Inductive vop := VPush | VPop | VClear.
@@ -91,7 +95,7 @@ Proof.
     + rewrite (Hstep _ _ eq_refl). cbn [fst].
       destruct (IH {| vlen := S (vlen v); vcap := vcap v |}) as [H1 [H2 H3]]; cbn [vlen vcap] in *; lia.
     + rewrite (Hstep _ _ eq_refl). cbn [fst].
-      destruct (IH {| vlen := S (vlen v); vcap := Nat.max (2 * vcap v) (S (vlen v)) |}) as [H1 [H2 H3]];
+      destruct (IH {| vlen := S (vlen v); vcap := Nat.max 4 (Nat.max (2 * vcap v) (S (vlen v))) |}) as [H1 [H2 H3]];
         cbn [vlen vcap] in *; lia.
   - cbn [high_water]. rewrite (Hstep _ _ eq_refl). cbn [fst].
     destruct (IH (vpop v)) as [H1 [H2 H3]]; unfold vpop in *; cbn [vlen vcap] in *; lia.
